@@ -154,20 +154,51 @@ Lemma hashed_data_is_byte_range_data cmsContent data :
   hashedData (dataToVerify cmsContent data) = data.
 Proof. unfold dataToVerify. destruct (isNil cmsContent); reflexivity. Qed.
 
-Lemma p7_unmodified_hashes_byte_range attrOK sha1eq sigOK cmsContent data :
-  p7Verdict attrOK sha1eq sigOK cmsContent data = TFalse ->
-  sigOK = true /\
-  ((cmsContent = [] /\ attrOK data = true) \/
-   (cmsContent <> [] /\ sha1eq data cmsContent = true /\ attrOK cmsContent = true)).
+(* "unmodified" ==> a digest of the ByteRange bytes was compared and matched, in each of the
+   four combinations (encapsulated?, signed attributes?) *)
+Lemma p7_unmodified_hashes_byte_range attrOK sha1eq hasAttrs sigAttrsOK sigContentOK cmsContent data :
+  p7Verdict attrOK sha1eq hasAttrs sigAttrsOK sigContentOK cmsContent data = TFalse ->
+  (cmsContent = [] /\ hasAttrs = true /\ sigAttrsOK = true /\ attrOK data = true) \/
+  (cmsContent <> [] /\ hasAttrs = true /\ sigAttrsOK = true /\
+     sha1eq data cmsContent = true /\ attrOK cmsContent = true) \/
+  (cmsContent <> [] /\ hasAttrs = false /\ sigContentOK cmsContent = true /\
+     sha1eq data cmsContent = true).
 Proof.
-  unfold p7Verdict, dataToVerify, signatureContent.
-  destruct sigOK; simpl; [|discriminate].
+  unfold p7Verdict, p7Digest, dataToVerify, signatureContent.
   destruct cmsContent as [|x t]; simpl.
-  - destruct (attrOK data); simpl; [|discriminate]. intros _. split; [reflexivity|]. left. now split.
-  - destruct (attrOK (x :: t)); simpl; [|discriminate].
-    destruct (sha1eq data (x :: t)) eqn:E; [|discriminate].
-    intros _. split; [reflexivity|]. right. repeat split; try assumption. discriminate.
+  - destruct hasAttrs; simpl.
+    + destruct sigAttrsOK; simpl; [|discriminate].
+      destruct (attrOK data); simpl; [|discriminate]. intros _. left. repeat split.
+    + destruct (sigContentOK data); simpl; discriminate.
+  - destruct hasAttrs; simpl.
+    + destruct sigAttrsOK; simpl; [|discriminate].
+      destruct (attrOK (x :: t)); simpl; [|discriminate].
+      destruct (sha1eq data (x :: t)); [|discriminate].
+      intros _. right. left. repeat split; discriminate.
+    + destruct (sigContentOK (x :: t)); simpl; [|discriminate].
+      destruct (sha1eq data (x :: t)); [|discriminate].
+      intros _. right. right. repeat split; discriminate.
 Qed.
+
+Lemma p7_unmodified_digest_of_byte_range_compared attrOK sha1eq hasAttrs sigAttrsOK sigContentOK cmsContent data :
+  p7Verdict attrOK sha1eq hasAttrs sigAttrsOK sigContentOK cmsContent data = TFalse ->
+  attrOK data = true \/ sha1eq data cmsContent = true.
+Proof.
+  intros H. apply p7_unmodified_hashes_byte_range in H.
+  destruct H as [(_ & _ & _ & H)|[(_ & _ & _ & H & _)|(_ & _ & _ & H)]]; [now left|now right|now right].
+Qed.
+
+(* the no-attributes detached combination is never reported unmodified *)
+Lemma p7_detached_without_attributes_never_unmodified attrOK sha1eq sigAttrsOK sigContentOK data :
+  p7Verdict attrOK sha1eq false sigAttrsOK sigContentOK [] data <> TFalse.
+Proof.
+  intros H. apply p7_unmodified_hashes_byte_range in H.
+  destruct H as [(_ & H & _)|[(H & _)|(H & _)]]; [discriminate|now apply H|now apply H].
+Qed.
+
+Lemma p1_unmodified_signature_over_byte_range sigMatches data :
+  p1Verdict sigMatches data = TFalse -> sigMatches data = true.
+Proof. unfold p1Verdict. destruct (sigMatches data); [reflexivity|discriminate]. Qed.
 
 Lemma eqbList_eq a b : eqbList a b = true -> a = b.
 Proof.
@@ -179,30 +210,31 @@ Qed.
 (* forged eContent: the CMS carries the originally signed bytes D as content.  Whatever the
    ByteRange bytes of the forged file are, "unmodified" would need SHA1(bytes) = D, impossible
    when D is not 20 bytes long. *)
-Lemma forged_econtent_not_unmodified (sha1 : list N -> list N) attrOK sigOK D data' :
+Lemma forged_econtent_not_unmodified (sha1 : list N -> list N) attrOK hasAttrs sigAttrsOK sigContentOK D data' :
   (forall x, length (sha1 x) = 20%nat) -> length D <> 20%nat -> D <> [] ->
-  p7Verdict attrOK (fun d c => eqbList (sha1 d) c) sigOK D data' <> TFalse.
+  p7Verdict attrOK (fun d c => eqbList (sha1 d) c) hasAttrs sigAttrsOK sigContentOK D data' <> TFalse.
 Proof.
   intros Hlen HD Hne A. apply p7_unmodified_hashes_byte_range in A.
-  destruct A as [_ [[E _]|[_ [E _]]]]; [contradiction|].
+  assert (E : eqbList (sha1 data') D = true).
+  { destruct A as [(E & _)|[(_ & _ & _ & E & _)|(_ & _ & _ & E)]]; [contradiction|exact E|exact E]. }
   apply eqbList_eq in E. apply HD. rewrite <- E. apply Hlen.
 Qed.
 
-Lemma docModified_false_inv verdict fsize f arr contents increment dts :
-  docModified verdict fsize f arr contents increment dts = TFalse ->
+Lemma docModified_false_inv verdict fsize f arr contents increment dts sf :
+  docModified verdict fsize f arr contents increment dts sf = TFalse ->
   exists data, signedData f arr contents = Ok data /\ verdict data = TFalse.
 Proof.
-  unfold docModified. destruct (negb (boundaryOK fsize arr increment dts)); [discriminate|].
+  unfold docModified. destruct (negb (boundaryOK fsize arr increment dts sf)); [discriminate|].
   destruct (signedData f arr contents) as [d|]; [|discriminate].
   unfold applyHistorical. intros H. exists d. split; [reflexivity|].
   destruct ((increment <=? 0) || dts); [exact H|]. destruct (verdict d); try discriminate; reflexivity.
 Qed.
 
-Lemma forged_econtent_document_not_unmodified (sha1 : list N -> list N) attrOK sigOK D
-    fsize f arr contents increment dts :
+Lemma forged_econtent_document_not_unmodified (sha1 : list N -> list N) attrOK hasAttrs sigAttrsOK sigContentOK D
+    fsize f arr contents increment dts sf :
   (forall x, length (sha1 x) = 20%nat) -> length D <> 20%nat -> D <> [] ->
-  docModified (p7Verdict attrOK (fun d c => eqbList (sha1 d) c) sigOK D)
-              fsize f arr contents increment dts <> TFalse.
+  docModified (p7Verdict attrOK (fun d c => eqbList (sha1 d) c) hasAttrs sigAttrsOK sigContentOK D)
+              fsize f arr contents increment dts sf <> TFalse.
 Proof.
   intros Hlen HD Hne A. apply docModified_false_inv in A. destruct A as (data & _ & A).
   revert A. now apply forged_econtent_not_unmodified.
@@ -210,11 +242,32 @@ Qed.
 
 (* detached CMS (no eContent): "unmodified" means the digest of signedData(file, ByteRange)
    itself is the signed messageDigest *)
-Lemma detached_unmodified_hashes_signed_data attrOK sha1eq sigOK fsize f arr contents increment dts :
-  docModified (p7Verdict attrOK sha1eq sigOK []) fsize f arr contents increment dts = TFalse ->
+Lemma detached_unmodified_hashes_signed_data attrOK sha1eq hasAttrs sigAttrsOK sigContentOK fsize f arr contents increment dts sf :
+  docModified (p7Verdict attrOK sha1eq hasAttrs sigAttrsOK sigContentOK []) fsize f arr contents increment dts sf = TFalse ->
   exists data, signedData f arr contents = Ok data /\ attrOK data = true.
 Proof.
   intros A. apply docModified_false_inv in A. destruct A as (data & S & A).
   exists data. split; [exact S|]. apply p7_unmodified_hashes_byte_range in A.
-  destruct A as [_ [[_ E]|[E _]]]; [exact E|congruence].
+  destruct A as [(_ & _ & _ & E)|[(E & _)|(E & _)]]; [exact E|congruence|congruence].
+Qed.
+
+(* any SubFilter handler based on p7Verdict / p1Verdict: unmodified ==> a digest of
+   signedData(file, ByteRange) was compared *)
+Lemma p7_document_unmodified_digest_compared attrOK sha1eq hasAttrs sigAttrsOK sigContentOK cmsContent
+    fsize f arr contents increment dts sf :
+  docModified (p7Verdict attrOK sha1eq hasAttrs sigAttrsOK sigContentOK cmsContent)
+              fsize f arr contents increment dts sf = TFalse ->
+  exists data, signedData f arr contents = Ok data /\
+               (attrOK data = true \/ sha1eq data cmsContent = true).
+Proof.
+  intros A. apply docModified_false_inv in A. destruct A as (data & S & A).
+  exists data. split; [exact S|]. revert A. apply p7_unmodified_digest_of_byte_range_compared.
+Qed.
+
+Lemma p1_document_unmodified_signature_over_byte_range sigMatches fsize f arr contents increment dts sf :
+  docModified (p1Verdict sigMatches) fsize f arr contents increment dts sf = TFalse ->
+  exists data, signedData f arr contents = Ok data /\ sigMatches data = true.
+Proof.
+  intros A. apply docModified_false_inv in A. destruct A as (data & S & A).
+  exists data. split; [exact S|]. now apply p1_unmodified_signature_over_byte_range.
 Qed.
